@@ -31,12 +31,28 @@ package slug
 //@   tolerates os.File.Close#1: true
 //@   sweep
 //@   replay validSymlink: root=dst, path=header.Name, target=header.Linkname, nallow=len(p.allowSymlinkTargets)
+//@   replay unpackDirs@C15:
 //@   guide g1: isPlainAbs(dst) && len(dst) <= 6 && isPlainAbs(header.Name) && len(header.Name) <= 6 && isDotDotRel(header.Linkname) && len(header.Linkname) <= 16
 //@   guide g2: isPlainAbs(dst) && len(dst) <= 6 && isPlainRel(header.Name) && len(header.Name) <= 6 && (isDotDotRel(header.Linkname) || isPlainAbs(header.Linkname)) && len(header.Linkname) <= 16
 //@   requires pre.p: p != nil
 //@   ghost $eof Bool = false
 //@   ghost $rejected Bool = false
+//@   ghost $kind Int = -1
+//@   ghost $ndirs Int = 0
+//@   ghost $copied Bool = false
+//@   ghost $linked Bool = false
+//@   ghost $restored Bool = false
+//@   ghost $lastMkdir String = ""
+//@   ghost $lastChmod String = ""
 //@   invariant loop1 C12.unpack.rejected.inv: !$rejected
+//@   invariant loop1 C15.unpack.entry-handled: (($kind == tar.TypeReg || $kind == tar.TypeRegA) ==> $copied && $restored) && ($kind == tar.TypeSymlink ==> $linked && $restored)
+//@       && len(directoriesExtracted) == $ndirs
+//@   at-call append C15,C02.unpack.dir-created: a1.Typeflag == tar.TypeDir && $lastMkdir == a1.Path
+//@   at-call unpackinfo.UnpackInfo.RestoreInfo#1 C15.unpack.dirs-restored-last: a0.Typeflag != tar.TypeDir
+//@   at-call unpackinfo.UnpackInfo.RestoreInfo#2 C15.unpack.dirs-restored-last2: a0.Typeflag != tar.TypeDir
+//@   at-call os.Create#2 C15.unpack.overwrite-retry: a0 == info.Path && $lastChmod == info.Path
+//@   at-call os.Symlink C15,C02.unpack.link-target: a0 == header.Linkname && a1 == info.Path
+//@   at-call os.Create#1 C15,C02.unpack.file-path: a0 == info.Path
 //@   invariant loop2 C12.unpack.rejected.inv2: !$rejected
 //@   ensures C12.unpack.illegal-slug: $rejected && !AbsErr(dst) ==> dyntype(err, "*slug.IllegalSlugError")
 //@   frame C01.frame: segUnder(Clean(_p), Clean(dst)) || Clean(_p) == Dir(Clean(dst))
